@@ -19,6 +19,9 @@ CONSTANTS
   MaxAcq = 0
   EarlyBook = FALSE
   TrustSource = FALSE
+  EarlyNote = FALSE
+  StaleKeys = FALSE
+  WithNotes = FALSE
 INVARIANT TypeOK
 INVARIANT Unforgeable
 INVARIANT HonestSignOnlyBySend
@@ -28,4 +31,6 @@ INVARIANT OverlaySeparation
 INVARIANT HonestAttribution
 INVARIANT BookLegit
 INVARIANT BookNoKeyEmpty
+INVARIANT NotesLegit
+INVARIANT KeyResolution
 PROPERTY RejectInert
